@@ -171,6 +171,10 @@ func (z *Int) Equal(s2 *Int) bool {
 }
 
 func (z *Int) Set(a *Int) *Int {
+	// bigmod.Nat.Set clears the receiver before copying: x.Set(x) would zero x
+	if z == a {
+		return z
+	}
 	z.Int.Set(&a.Int)
 	return z
 }
